@@ -246,4 +246,53 @@ func runThorough(c *Ctx, spec *propSpec) {
 		c.R.Unproven("second-config", "(tree)", "GOARCH=386+tests", "", "verdicts differ between build configurations", diffs...)
 	}
 	c.R.Analysed["second_config_packages"] = len(P2.Pkgs)
+	if spec.id == "C04" {
+		gorootControl(c)
+	}
+}
+
+// gorootControl: independent negative control for the map protocol rules. The standard library's own sync.Map
+// (read/dirty design, written independently of the fork: atomic.Pointer, loadReadOnly, Swap, CompareAndSwap, Clear)
+// is correct; the rules that are not tied to the fork's function set must report nothing on it.
+func gorootControl(c *Ctx) {
+	P, err := Load(LoadOpts{Dir: c.Repo, Patterns: []string{"sync"}, MinPkgs: 1})
+	c.R.Rule("goroot-control", "the protocol rules report nothing on GOROOT's own sync.Map (a second, independently written, correct implementation)", 1)
+	if err != nil {
+		c.R.Notes = append(c.R.Notes, "GOROOT control skipped: "+err.Error())
+		c.R.Held("goroot-control", "sync.Map", "rules-silent", "", "skipped: GOROOT's sync package could not be loaded ("+err.Error()+")")
+		return
+	}
+	if P.FieldOf("", "Map", "dirty") == nil || P.FieldOf("", "entry", "p") == nil {
+		c.R.Held("goroot-control", "sync.Map", "rules-silent", "", "skipped: this GOROOT's sync.Map is not the read/dirty design (no dirty/entry.p fields)")
+		return
+	}
+	R2 := NewReport("C04", c.Tier)
+	c2 := &Ctx{R: R2, P: P, An: NewAnalysis(P), Tier: c.Tier, Verif: c.Verif, Repo: c.Repo}
+	func() {
+		defer func() {
+			if r := recover(); r != nil {
+				R2.Unproven("internal", "(checker)", "panic", "", fmt.Sprintf("checker panicked on GOROOT sync.Map: %v", r))
+			}
+		}()
+		runMapProtocolOn(c2, "", "", "sync", false)
+	}()
+	var bad []string
+	held := 0
+	for _, o := range R2.Obs {
+		if o.Verdict == Held {
+			held++
+		} else {
+			bad = append(bad, fmt.Sprintf("%s [%s]: %s", o.Key(), o.Verdict, o.Msg))
+		}
+	}
+	sort.Strings(bad)
+	if len(bad) == 0 {
+		c.R.Held("goroot-control", "sync.Map", "rules-silent", "", fmt.Sprintf("%d obligations on GOROOT's sync/map.go, all held", held))
+	} else {
+		if len(bad) > 30 {
+			bad = bad[:30]
+		}
+		c.R.Unproven("goroot-control", "sync.Map", "rules-silent", "", fmt.Sprintf("the rules report %d problems on GOROOT's correct sync.Map: they are over-fitted to the fork", len(bad)), bad...)
+	}
+	c.R.Analysed["goroot_control_obligations"] = len(R2.Obs)
 }
